@@ -273,7 +273,7 @@ def main(chk):
                 'negative densities refused. Interior zero stretches (k = 1) and splines that go negative (k ≥ 2) are listed findings and kept out of the main stream. '
                 'non-trivial = non-uniform grid or flat stretch / sharp edge')
     chk.assumptions = TRUSTED
-    chk.lean(['IxpeVerif.Props.C15', 'IxpeVerif.Props.Audit.C15'])
+    chk.lean(['IxpeVerif.Props.C15', 'IxpeVerif.Props.Audit.C15'], ['build_cdf', 'build_ppf', 'rvs_bounded'])
     explore(chk)
     known_findings(chk)
     return chk.finish(level='proof', trusted=TRUSTED, search=lambda k: explore(chk, 4))
